@@ -225,7 +225,7 @@ func printFileAnnotationAsGithubActions(buffer *bytes.Buffer, f FileAnnotation) 
 		path = f.FileInfo().ExternalPath()
 	}
 	_, _ = buffer.WriteString("file=")
-	_, _ = buffer.WriteString(path)
+	_, _ = buffer.WriteString(githubActionsEscapeData(path))
 
 	// Everything else is optional.
 	if startLine := f.StartLine(); startLine > 0 {
@@ -250,13 +250,21 @@ func printFileAnnotationAsGithubActions(buffer *bytes.Buffer, f FileAnnotation) 
 	}
 
 	_, _ = buffer.WriteString("::")
-	_, _ = buffer.WriteString(f.Message())
+	_, _ = buffer.WriteString(githubActionsEscapeData(f.Message()))
 	if pluginName := f.PluginName(); pluginName != "" {
 		_, _ = buffer.WriteString(" (")
-		_, _ = buffer.WriteString(pluginName)
+		_, _ = buffer.WriteString(githubActionsEscapeData(pluginName))
 		_, _ = buffer.WriteRune(')')
 	}
 	return nil
+}
+
+// githubActionsEscapeData escapes the data part of a workflow command
+// (https://github.com/actions/toolkit/blob/main/packages/core/src/command.ts, escapeData).
+func githubActionsEscapeData(s string) string {
+	s = strings.ReplaceAll(s, "%", "%25")
+	s = strings.ReplaceAll(s, "\r", "%0D")
+	return strings.ReplaceAll(s, "\n", "%0A")
 }
 
 type externalFileAnnotation struct {
